@@ -542,6 +542,23 @@ verif_commit_done:;
             &ibz_const_two,
             TORSION_PLUS_EVEN_POWER - (len_chall + exp_diadic_val_full_resp));
 
+#ifdef SQISIGN_SQISIGN2D_WEST_AC24_VERIF
+    /* H3s: the matrix that is compressed below (hex), then v2, chain length, a = len_chall + v2, n = f - a,
+       row the verifier will use */
+    if (verif_env_int("SQI_VERIF_TRACE", 0))
+        gmp_fprintf(stderr,
+                    "verif-mat: sign %Zx %Zx %Zx %Zx\n",
+                    sig_mat_pk_can_to_B_pk[0][0],
+                    sig_mat_pk_can_to_B_pk[0][1],
+                    sig_mat_pk_can_to_B_pk[1][0],
+                    sig_mat_pk_can_to_B_pk[1][1]);
+    verif_trace("heur.sign",
+                exp_diadic_val_full_resp,
+                pow_dim2_deg_resp,
+                len_chall + exp_diadic_val_full_resp,
+                TORSION_PLUS_EVEN_POWER - (len_chall + exp_diadic_val_full_resp),
+                TORSION_PLUS_EVEN_POWER - pow_dim2_deg_resp + 2);
+#endif
     // formatting the challenge info
     if (ibz_get(&sig_mat_pk_can_to_B_pk[0][0]) % 2 != 0) {
         // in that case
@@ -856,6 +873,11 @@ protocols_verif(signature_t *sig, const public_key_t *pk, const unsigned char *m
         ibz_add(&mat[1][1], &mat[1][1], &remain);
     }
 
+#ifdef SQISIGN_SQISIGN2D_WEST_AC24_VERIF
+    /* H3s: the matrix re-expanded from the signature (hex) */
+    if (verif_env_int("SQI_VERIF_TRACE", 0))
+        gmp_fprintf(stderr, "verif-mat: verif %Zx %Zx %Zx %Zx\n", mat[0][0], mat[0][1], mat[1][0], mat[1][1]);
+#endif
     // computation of the challenge
     // canonical basis
     ec_curve_to_basis_2f_from_hint(
